@@ -14,6 +14,7 @@ def dispatch (name : String) (lines : List String) : Option (List String) :=
   | "verlet" => some (Sympler.Verlet.driver lines)
   | "kernels" => some (Sympler.KernelsDrv.driver lines)
   | "dataformat" => some (Sympler.DataFormat.driver lines)
+  | "bonds" => some (Sympler.Bonds.driver lines)
   | "stages" => some (Sympler.Stages.driver lines)
   | _ => none
 
